@@ -93,7 +93,7 @@ func (x *Exec) step(fr *Frame, ins ssa.Instruction, st *State) []alt {
 			bc.OnBounds(x, st, fr, ins, "index", base, idx, nil)
 		}
 		base, idx = x.normIndex(base, idx)
-		return one(st, mk("elem", "", ins.Type(), base, idx))
+		return one(st, elemOf(base, idx, ins.Type()))
 	case *ssa.Slice:
 		base := x.val(fr, ins.X)
 		if ins.Low == nil && ins.High == nil && ins.Max == nil {
@@ -217,7 +217,7 @@ func (x *Exec) loadAlts(fr *Frame, st *State, addr *Term, typ types.Type, pos to
 				}
 				v := m
 				if m.Op == "anyelem" {
-					v = mk("elem", "", typ, m.Args[0], addr.Args[1])
+					v = elemOf(m.Args[0], addr.Args[1], typ)
 				} else if len(x.marks) > 0 && base.Aux != "exact" {
 					// a per-iteration instance of the summary member at this index
 					v = mk("draw", "", typ, m, addr.Args[1])
@@ -242,7 +242,7 @@ func (x *Exec) loadAlts(fr *Frame, st *State, addr *Term, typ types.Type, pos to
 			if len(x.marks) > 0 {
 				st.drawn[x.curMark().key] = mk("anyelem", "", nil, base)
 			}
-			return one(st, mk("elem", "", typ, base, addr.Args[1]))
+			return one(st, elemOf(base, addr.Args[1], typ))
 		}
 	}
 	v := x.load(st, addr, typ)
@@ -648,6 +648,9 @@ func (x *Exec) builtin(fr *Frame, st *State, site ssa.CallInstruction, name stri
 		if a.Op == "mapobj" && len(mapEntries(st, a)) == 0 {
 			return ret(tConst("0", typ))
 		}
+		if name == "len" && a.Op == "fam" {
+			return ret(mk("len", "", typ, a.Args[0]))
+		}
 		if name == "len" && x.NormSubslice {
 			if l := x.normLen(a, typ); l != nil {
 				return ret(l)
@@ -664,7 +667,7 @@ func (x *Exec) builtin(fr *Frame, st *State, site ssa.CallInstruction, name stri
 		if es, ok := x.sliceElems(st, b); ok {
 			add, exactB = es, true
 		} else {
-			add = listMembers(b)
+			add = x.membersOf(st, fr, siteID(fr, site)+".b", b)
 		}
 		inLoop := len(x.marks) > 0
 		if exactB && !inLoop {
@@ -675,7 +678,7 @@ func (x *Exec) builtin(fr *Frame, st *State, site ssa.CallInstruction, name stri
 				return ret(tList(true, append(append([]*Term{}, a.Args...), add...)))
 			}
 		}
-		return ret(tList(false, append(append([]*Term{}, listMembers(a)...), add...)))
+		return ret(tList(false, append(append([]*Term{}, x.membersOf(st, fr, siteID(fr, site)+".a", a)...), add...)))
 	case "delete":
 		m, k := args[0], args[1]
 		if m.Op == "mapobj" {
